@@ -10,7 +10,7 @@
    filter, every iteration order. *)
 From Coq Require Import ZArith List Bool Permutation Sorted.
 From Verif Require Import Annotate.Model Annotate.SortProofs Annotate.Plans Annotate.Determinism
-  C11.Spec C11.Proofs C12.Proofs.
+  C11.Spec C11.Proofs C11.Exact C11.TimeTravel C12.Proofs.
 Import ListNotations.
 Open Scope Z_scope.
 
@@ -118,51 +118,119 @@ Theorem C11_no_visible_child_error_typed :
 Proof. exact no_visible_child_error_typed. Qed.
 Print Assumptions C11_no_visible_child_error_typed.
 
-(* 8. updates_exact — PARTIAL.
-   Full statement (commit-time regime), not proved:
-     the update list of parent p contains, for each reference index j (unfiltered, history cl,
-     selected version s), exactly one update child_update ck j for every version ck of cl with
-     c_vidx s < c_vidx ck that is committed no later than the version current at the next parent
-     version, that version itself only if it was committed earlier than
-     (commit time of the next parent - threshold); all later versions when p is the last version;
-     and nothing else.
-   Proved: the loop of Compute emits exactly the visible versions at positions
-   start .. nextVersion-1 of the history, one update per location, in version order, nothing else
-   (closed form), and without IgnoreInconsistency all those versions are visible.
-   Missing: the arithmetic identification of [start] and [nextVersion] (next_version_index) with
-   the two current_at bounds above. *)
-Theorem C11_updates_exact_partial : forall cis o fid cl locs n k acc ups,
-  updates_loop cis o fid cl locs k n acc = Ok ups ->
-  ups = acc ++ flat_map (version_updates cis locs) (firstn n (skipn k cl)) /\
-  (o_ignore_incons o = false -> forall ck, In ck (firstn n (skipn k cl)) -> c_visible ck = true).
-Proof.
-  intros cis o fid cl locs n k acc ups H. split.
-  - exact (updates_loop_exact cis o fid cl locs n k acc ups H).
-  - intros Hi. exact (updates_loop_all_visible cis o fid cl locs n k acc ups Hi H).
-Qed.
-Print Assumptions C11_updates_exact_partial.
+(* 8. updates_exact (commit-time regime: commit times of this parent, the next parent and the child
+      known; child stamps non-decreasing; [vidx_ok]: VersionIndex = position, as the datasource
+      wrappers produce, theorem 12).  With s the version selected for (p, j) — by theorem 2 the one
+      current at the parent's commit — the update list of parent p contains, at index j, exactly
+      one update for every VISIBLE version ck of the child that is later than s and within
+      [bound_ok]: no bound for the last parent version; otherwise, with cn the (visible) version
+      current at the next parent version: the versions before cn, and cn itself only if it was
+      committed strictly before the next parent; if the version current at the next parent is
+      deleted or absent: the versions committed strictly before the next parent.  Each update is
+      [child_update ck j]: version, changeset, location of ck, stamped by theorem 11 with its
+      commit time.  (With known commit times the code does not subtract the threshold.) *)
+Theorem C11_updates_exact :
+  forall cis o ps hist entries sortf ps' results p par j r cl s,
+  valid_order o ps entries -> sort_spec less sortf ->
+  compute_with cis o ps hist entries sortf = Ok (ps', results) ->
+  nth_error ps p = Some par -> p_visible par = true ->
+  commit_parent cis par = true -> np_commit cis (nth_error ps (S p)) ->
+  nth_error (p_refs par) j = Some r -> filtered_out (o_filter o) r = false ->
+  hist (r_id r) = HFound cl -> cl <> [] ->
+  vidx_ok cl -> stamps_monotone cis cl = true -> forallb (commit_child cis) cl = true ->
+  visible_only (current_at cis cl (pstamp cis par)) = Some s ->
+  exists us,
+    nth_error results p = Some us /\
+    forall u, (In u us /\ u_index u = j) <->
+      exists ck, In ck cl /\ c_visible ck = true /\ u = child_update cis ck j /\
+                 (c_vidx s < c_vidx ck)%nat /\ bound_ok cis cl (nth_error ps (S p)) ck.
+Proof. exact updates_exact. Qed.
+Print Assumptions C11_updates_exact.
 
-(* 9. time_travel — PARTIAL.
-   Full statement (commit-time regime), not proved:
-     forall t, pstamp p <= t -> (next parent np exists -> t < pstamp np - threshold) ->
-     apply_updates_up_to t (annotated refs of p) (updates of p) = ApplyOk refs' _ and for every
-     unfiltered index j with history cl (stamps monotone, versions between visible):
-     refs'[j] carries current_at cl t.
-   Generic regime (time_travel_generic), not proved: refs'[j] carries
-     later (selected version) (current_at cl t).
-   Both are checked on the real implementation on every run by judgement 2 of C11/Check.v
-   (the time-travel oracle), for ~4000 (history, parent, t) triples per quick run.
-   Proved here, for all update lists and all t:
-   (a) ApplyUpdatesUpTo(t) succeeds when indices are in range, leaves exactly the updates later
-       than t pending (in order), and overwrites each reference by the applicable updates of its
-       index in list order;
-   (b) on a list ordered by (index, timestamp, version) — which C12 proves for every annotation
-       result — the reference ends up carrying the applicable update that is greatest for
-       (timestamp, version): the newest version stamped <= t; with no applicable update it is
-       unchanged.
-   Missing: that among the updates of index j the greatest one stamped <= t is current_at cl t
-   (needs theorem 8's missing part and monotone stamps). *)
-Theorem C11_time_travel_partial :
+(* 8'. without IgnoreInconsistency every version inside those bounds is visible (otherwise the
+       annotation fails with "child deleted between parent versions") *)
+Theorem C11_between_visible :
+  forall cis o ps hist entries sortf ps' results p par j r cl s,
+  valid_order o ps entries ->
+  compute_with cis o ps hist entries sortf = Ok (ps', results) ->
+  nth_error ps p = Some par -> p_visible par = true ->
+  commit_parent cis par = true -> np_commit cis (nth_error ps (S p)) ->
+  nth_error (p_refs par) j = Some r -> filtered_out (o_filter o) r = false ->
+  hist (r_id r) = HFound cl -> cl <> [] ->
+  vidx_ok cl -> stamps_monotone cis cl = true -> forallb (commit_child cis) cl = true ->
+  visible_only (current_at cis cl (pstamp cis par)) = Some s ->
+  o_ignore_incons o = false ->
+  forall ck, In ck cl -> (c_vidx s < c_vidx ck)%nat -> bound_ok cis cl (nth_error ps (S p)) ck ->
+  c_visible ck = true.
+Proof. exact between_visible. Qed.
+Print Assumptions C11_between_visible.
+
+(* 9. time_travel (commit-time regime).  For every t from the commit of parent version p up to
+      (excluding) the commit of the next version — no upper limit for the last version; this
+      contains the property's window "before the next version less the threshold" — applying the
+      updates of the annotated parent up to t leaves at reference j the version, changeset and
+      location of the child version current at t.
+      Extra hypotheses: [hist_ok] distinct versions, [versions_mono] versions increase with the
+      position (theorem 12), [stamp_consistent] the update stamp of a version is its commit time,
+      and the versions between the selected one and t are visible (automatic without
+      IgnoreInconsistency: theorem 9'). *)
+Theorem C11_time_travel :
+  forall cis o ps hist entries sortf ps' results p par j r cl s,
+  hist_ok hist -> valid_order o ps entries -> sort_spec less sortf ->
+  compute_with cis o ps hist entries sortf = Ok (ps', results) ->
+  nth_error ps p = Some par -> p_visible par = true ->
+  commit_parent cis par = true -> np_commit cis (nth_error ps (S p)) ->
+  nth_error (p_refs par) j = Some r -> filtered_out (o_filter o) r = false ->
+  hist (r_id r) = HFound cl -> cl <> [] ->
+  vidx_ok cl -> stamps_monotone cis cl = true -> forallb (commit_child cis) cl = true ->
+  versions_mono cl -> (forall ck, In ck cl -> stamp_consistent cis ck = true) ->
+  visible_only (current_at cis cl (pstamp cis par)) = Some s ->
+  forall is_rel t par' us refs' pend,
+  in_window_commit cis ps p par t ->
+  (forall ck, In ck cl -> (c_vidx s < c_vidx ck)%nat -> stamp cis ck <= t -> c_visible ck = true) ->
+  nth_error ps' p = Some par' -> nth_error results p = Some us ->
+  apply_updates_up_to is_rel t (p_refs par') us = ApplyOk refs' pend ->
+  exists e r', current_at cis cl t = Some e /\ nth_error refs' j = Some r' /\ ref_carries r' e.
+Proof. exact time_travel. Qed.
+Print Assumptions C11_time_travel.
+
+(* 9'. the same without the visibility side condition when IgnoreInconsistency is off *)
+Theorem C11_time_travel_strict :
+  forall cis o ps hist entries sortf ps' results p par j r cl s,
+  hist_ok hist -> valid_order o ps entries -> sort_spec less sortf ->
+  compute_with cis o ps hist entries sortf = Ok (ps', results) ->
+  nth_error ps p = Some par -> p_visible par = true ->
+  commit_parent cis par = true -> np_commit cis (nth_error ps (S p)) ->
+  nth_error (p_refs par) j = Some r -> filtered_out (o_filter o) r = false ->
+  hist (r_id r) = HFound cl -> cl <> [] ->
+  vidx_ok cl -> stamps_monotone cis cl = true -> forallb (commit_child cis) cl = true ->
+  versions_mono cl -> (forall ck, In ck cl -> stamp_consistent cis ck = true) ->
+  visible_only (current_at cis cl (pstamp cis par)) = Some s ->
+  forall is_rel t par' us refs' pend,
+  o_ignore_incons o = false ->
+  in_window_commit cis ps p par t ->
+  nth_error ps' p = Some par' -> nth_error results p = Some us ->
+  apply_updates_up_to is_rel t (p_refs par') us = ApplyOk refs' pend ->
+  exists e r', current_at cis cl t = Some e /\ nth_error refs' j = Some r' /\ ref_carries r' e.
+Proof. exact time_travel_strict. Qed.
+Print Assumptions C11_time_travel_strict.
+
+(* 10. ApplyUpdatesUpTo never reports an index error on an annotation result, keeps the number of
+       references and leaves exactly the updates later than t pending, in order; in general it
+       overwrites each reference by the applicable updates of its index in list order, and on a
+       list ordered by (index, time, version) the greatest applicable one wins *)
+Theorem C11_apply_annotated_ok :
+  forall cis o ps hist entries sortf ps' results p par par' us is_rel t,
+  valid_order o ps entries -> sort_spec less sortf ->
+  compute_with cis o ps hist entries sortf = Ok (ps', results) ->
+  nth_error ps p = Some par -> nth_error ps' p = Some par' -> nth_error results p = Some us ->
+  exists refs',
+    apply_updates_up_to is_rel t (p_refs par') us = ApplyOk refs' (filter (fun u => u_timestamp u >? t) us) /\
+    length refs' = length (p_refs par).
+Proof. exact apply_annotated_ok. Qed.
+Print Assumptions C11_apply_annotated_ok.
+
+Theorem C11_apply_updates_semantics :
   (forall is_rel t us refs,
      (forall u, In u us -> u_timestamp u >? t = false -> (u_index u < length refs)%nat) ->
      exists refs',
@@ -178,7 +246,22 @@ Theorem C11_time_travel_partial :
   (forall is_rel t j us r,
      (forall u, In u us -> applicable t j u = false) -> applied_ref is_rel t us j r = r).
 Proof. split; [exact apply_exact|split; [exact applied_sorted_max|exact applied_none]]. Qed.
-Print Assumptions C11_time_travel_partial.
+Print Assumptions C11_apply_updates_semantics.
+
+(* 11. "stamped with their commit time": a regime-consistent version yields an update stamped with
+       its stamp (commit time when known) *)
+Theorem C11_update_stamp : forall cis ck j,
+  stamp_consistent cis ck = true -> u_timestamp (child_update cis ck j) = stamp cis ck.
+Proof. exact child_update_stamp. Qed.
+Print Assumptions C11_update_stamp.
+
+(* 12. the histories the datasource wrappers build (sort by version, number) have the assumed shape *)
+Theorem C11_to_child_list_shape : forall fid l,
+  vidx_ok (to_child_list fid l) /\ versions_mono (to_child_list fid l).
+Proof. intros fid l. split; [exact (to_child_list_vidx_ok fid l)|exact (to_child_list_versions_mono fid l)]. Qed.
+Print Assumptions C11_to_child_list_shape.
+
+(* 13. time_travel_generic — see below (timestamp regime). *)
 
 (* ---- non-vacuity: the witness history of C12/Proofs.v (node 100: v1 before the way, v2 and v3
    in the same second after it; commit-time regime) ---- *)
@@ -187,6 +270,26 @@ Example C11_hyps_commit_regime :
   stamps_monotone w_cis (to_child_list 100 w_versions) = true /\
   valid_order w_opts w_parents w_entries.
 Proof. split; [vm_compute; reflexivity|split; [vm_compute; reflexivity|exact w_valid_order]]. Qed.
+
+(* the remaining hypotheses of theorems 8-9' hold for it: shape, regime-consistent stamps, commit
+   regime of the parent, a selected version, and a time inside the window *)
+Example C11_hyps_time_travel :
+  let cl := to_child_list 100 w_versions in
+  vidx_ok cl /\ versions_mono cl /\ cl <> [] /\
+  (forall ck, In ck cl -> stamp_consistent w_cis ck = true) /\
+  (exists par, nth_error w_parents 0 = Some par /\ commit_parent w_cis par = true /\
+               np_commit w_cis (nth_error w_parents 1) /\
+               (exists s, visible_only (current_at w_cis cl (pstamp w_cis par)) = Some s) /\
+               in_window_commit w_cis w_parents 0 par (w_t 9000)) /\
+  o_ignore_incons w_opts = false /\ hist_ok w_hist.
+Proof.
+  cbv zeta. split; [apply to_child_list_vidx_ok|]. split; [apply to_child_list_versions_mono|].
+  split; [vm_compute; discriminate|]. split.
+  - apply forallb_forall. vm_compute. reflexivity.
+  - split; [|split; [reflexivity|exact w_hist_ok]].
+    eexists. split; [reflexivity|]. split; [vm_compute; reflexivity|]. split; [exact I|].
+    split; [eexists; vm_compute; reflexivity|]. split; [vm_compute; discriminate|exact I].
+Qed.
 
 (* the annotated way carries v1 (current at the way's commit), the updates are v2 then v3, and
    travelling to a time after both leaves v3 = current_at, travelling to the way's own commit
